@@ -340,6 +340,11 @@ class PwEval:
             return self.up(n, join(*acls, *kcls))
         if name in REDUCTIONS:
             a = acls[0] if acls else C
+            ax = n.kw.get('axis') or (n.args[1] if len(n.args) > 1 and name not in ('numpy.searchsorted', 'numpy.roll') else None)
+            if a == E and ax is not None and ax.kind == 'const' and ax.val == 1 and name in (
+                    'numpy.sum', 'numpy.prod', 'numpy.max', 'numpy.min', 'numpy.amax', 'numpy.amin', 'numpy.mean',
+                    'numpy.any', 'numpy.all'):
+                return self.up(n, E)       # along the second axis: over the coordinates of each point, not over the points
             if a in (E, P, G):
                 if a == G and name in ('numpy.sort',):
                     return G
@@ -363,6 +368,10 @@ class PwEval:
         if name in ('copy', 'astype', 'flatten', 'ravel', 'reshape', 'squeeze', 'transpose', 'tolist', 'item', 'view'):
             return recv
         if name in ('max', 'min', 'sum', 'mean', 'argmin', 'argmax', 'cumsum', 'any', 'all', 'argsort', 'std', 'prod'):
+            ax = n.kw.get('axis') or (n.args[1] if len(n.args) > 1 else None)
+            if recv == E and ax is not None and ax.kind == 'const' and ax.val == 1 and name in (
+                    'max', 'min', 'sum', 'mean', 'any', 'all', 'prod'):
+                return self.up(n, E)       # over the coordinates of each point
             if recv in (E, G, P):
                 return self.batch(n, '%s() over the points' % name)
             return recv
